@@ -1,0 +1,39 @@
+//go:build verif
+
+package decimal128
+
+// Composition clients: each function below is a two- or three-line composition of
+// exported operations, compiled only with the build tag "verif" and never called. They
+// exist so that a property stated about a composition (a round trip) is an obligation
+// of the verifier like any other: the client is verified against the contracts of the
+// operations it calls (callers see callee contracts, never bodies), and its own
+// postcondition in contracts_verif.go is the property statement.
+
+// verifStringParse is Parse(d.String()) compared with d.
+func verifStringParse(d Decimal) (Decimal, error, bool) {
+	s := d.String()
+	v, err := Parse(s)
+	eq := v.Equal(d)
+	return v, err, eq
+}
+
+// verifTextRoundTrip is UnmarshalText(MarshalText(d)) compared with d.
+func verifTextRoundTrip(d Decimal) (Decimal, error, error, bool) {
+	var v Decimal
+	b, err1 := d.MarshalText()
+	err2 := v.UnmarshalText(b)
+	eq := v.Equal(d)
+	return v, err1, err2, eq
+}
+
+// verifJSONRoundTrip is UnmarshalJSON(MarshalJSON(d)) compared with d.
+func verifJSONRoundTrip(d Decimal) (Decimal, error, error, bool) {
+	var v Decimal
+	b, err1 := d.MarshalJSON()
+	if err1 != nil {
+		return v, err1, nil, false
+	}
+	err2 := v.UnmarshalJSON(b)
+	eq := v.Equal(d)
+	return v, err1, err2, eq
+}
